@@ -33,7 +33,8 @@ CLAIMED = {
         text="Machine-checked proof on a stated expression fragment: a value reported by the literal_value model is the value of the expression "
              "in every environment (environment independence of name-free evaluation, mutual induction over expressions), raising expressions "
              "are unknown, known values involve no call outside the pure builtins, and/or have value semantics. The evaluator doubles as reference "
-             "semantics validated against CPython eval. 6 theorems.",
+             "semantics validated against CPython eval. The consumer remove_redundant_boolop_values is modelled and proved to keep the VALUE of every and / or chain, also "
+             "when repeated by processing.fix (exhaustive tie over all truth-value masks up to length 6). 8 theorems.",
         design="4/C15",
         note="Trusted: Lean kernel; Lit.lean tied to core.literal_value (suite lit) and to CPython eval (suite pyeval); floats, string methods, "
              "dict/set, repetition are outside the fragment (covered by the eval oracle only).",
@@ -112,7 +113,9 @@ CLAIMED = {
         text="Machine-checked proof: (1) the repetition vectors tried for a quantified list are exactly the position-wise admissible vectors summing to the "
              "length (regular-expression reading), for all quantifier lists and lengths; (2) soundness of the matcher w.r.t. an inductive declarative "
              "semantics with one canonical text per wildcard name, for all trees, templates, class hierarchies and fuels; bindings are functional. "
-             "Completeness is false in general (nested-list backtracking): counterexample evaluated on the model and replayed on the code (known finding). 3 theorems.",
+             "(3) every tree matches itself: a tree read as a template is accepted with no bindings, for every tree with distinct field names and every fuel from an explicit bound on. "
+             "Completeness is false in general (nested-list backtracking): counterexample evaluated on the model and replayed on the code (known finding). 4 theorems. "
+             "Statement-sequence search is checked against a reference computed from the ast (every window in body / else blocks, with multiplicity).",
         design="4/C12",
         note="Trusted: Lean kernel; Quant/Match models tied by suites perms (exhaustive small scope) and match (templates harvested from the running pipeline + "
              "compiled patterns x corpus nodes, via an exporter of ast trees / compiled templates); walk order and compile_template preprocessing are covered by the oracle only.",
@@ -146,13 +149,21 @@ CLAIMED = {
         technique="Lean 4 proof (composition) + differential correspondence on the real match stream + AST-level reference substitution oracle",
     ),
     "C19": dict(
-        text="Machine-checked proof about the constructed name: a public rename never starts with an underscore and a private one always does (dunder names and _ exempt); "
-             "the statement 'the new name is a valid identifier' is FALSE of the code and carries a counterexample theorem (replayed, known finding). 3 theorems. "
-             "The scanner model of _list_words / rename_variable equals the real functions on adversarial identifiers.",
-        design="4/C19",
-        note="Trusted: Lean kernel; Style.lean tied by suite style; capture-freedom (use-site discovery against Python scoping) is NOT proved - it is examined by the "
-             "rename-behaviour oracle over adversarial programs (shadowing, kw-only parameters, global/nonlocal, generated-name collisions).",
-        technique="Lean 4 proof (scanner model, case analysis, decide) + differential correspondence + execution oracle for the renaming rules",
+        text="Machine-checked proof, two parts. (1) Capture-freedom against Python's scoping rules (model C19/Scope.lean: occurrences, scope chains that skip class scopes, "
+             "global / nonlocal declarations): a renaming whose new name is fresh, whose names are not declared global / nonlocal and whose set of renamed occurrences is closed "
+             "under 'refers to the same variable' keeps every occurrence in its variable's scope and preserves 'same variable' between any two occurrences - no capture, split "
+             "or merge (rename_capture_free, rename_scope_kept), for every program, nesting and occurrence set; the hypotheses are decidable (rename_check_sound) and both are "
+             "needed (merge_counterexample, split_counterexample). (2) The constructed name: a public rename never starts with an underscore, a private one always does; 'the new "
+             "name is a valid identifier' is FALSE of the code (counterexample theorem, replayed, known finding). 8 theorems. Ties: the scoping model equals CPython's symtable on "
+             "every corpus program (suite scope-model); every pure renaming the 7 renaming rules perform on the corpus and on a fixed corpus of 4800 random scope trees over "
+             "convention-colliding names is checked against checkHyps (then the theorem applies) or CPython's symbol tables of both texts (translation validation), and executed.",
+        design="4/C19 and 10.9",
+        note="Trusted: Lean kernel; harness/scoping.py (extraction of occurrences / scopes from the ast; compared with symtable by suite scope-model; comprehension variables follow "
+             "PEP 709 where symtable no longer lists them); Style.lean tied by suite style. Which occurrences a rule selects (_get_uses_of) is code, not model: it is validated per "
+             "output, not proved for all inputs. Renamings that also change the tree (203 of ~960 outputs in the quick tier) are covered by the execution oracle only. Variables "
+             "that are only written after the renaming (throwaway '_') are left out of the static comparison.",
+        technique="Lean 4 proof (scoping model, induction over scope chains; scanner model) + translation validation of every pure renaming against the theorem's decidable "
+                  "hypotheses and CPython's symtable + differential correspondence + execution oracle",
     ),
     "C07": dict(
         text="Machine-checked proof over the guard logic: the safe-mode set contains every top-level def/class, every collected top-level assignment target, every "
@@ -172,12 +183,13 @@ CLAIMED = {
         technique="Lean 4 proof (membership) + differential correspondence through the real format_files + client-execution oracle",
     ),
     "C02": dict(
-        text="Machine-checked behaviour preservation (13 theorems). (1) Control-flow rules: a proved validator - C16.validate l l' = true implies that under every valuation of "
+        text="Machine-checked behaviour preservation (17 theorems). (1) Control-flow rules: a proved validator - C16.validate l l' = true implies that under every valuation of "
              "the unknown tests and every iteration count l and l' terminate with the same outcome, oracle position and trace of executed statements and evaluated tests, or both "
              "diverge (flow_rewrite_sound, via a normaliser proved sound against a big-step semantics with loop else-clauses and try/except/finally); every rewrite the REAL "
              "remove_dead_ifs, delete_unreachable_code, remove_redundant_else, swap_if_else, early_continue, breakout_common_code_in_ifs make on labelled skeleton programs is "
              "checked by it (translation validation), a rejected rewrite is executed under all valuations for the replay. (2) Decision cores: constant-condition folding, negation, "
-             "replace_negated_numeric_comparison, simplify_boolean_expressions' bound analysis, simplify_constrained_range (corollaries of C15/C17). The other ~80 rules have NO Lean "
+             "replace_negated_numeric_comparison, simplify_boolean_expressions' bound analysis, simplify_constrained_range (corollaries of C15/C17), remove_redundant_boolop_values (value of the "
+             "chain), remove_duplicate_set_elts, remove_duplicate_dict_keys (lookups preserved; the item order is NOT - counterexample theorem, recorded finding). The other ~75 rules have NO Lean "
              "model: each public rule function is applied in isolation to the fixed corpus by the rule sweep (support, reported separately; the evidence lists how often each fired).",
         design="4/C01-C02",
         note="Trusted: Lean kernel; models tied as in C15/C16/C17; for unmodelled rules the claim is NOT shown by proof - only the execution sweep looks at them; corpus inputs "
